@@ -86,3 +86,15 @@ Proof.
   intros N s a e p H. rewrite tie_try_from_iter in H. injection H as H.
   exact (ok_only_exact N s a e p H).
 Qed.
+
+(* ---- T1: the one-expression bodies this property's code consists of besides the modelled core, as they stand
+        in the source now (coq/gen/GenSigs.v gen_thin_bodies) ---- *)
+From Coq Require Import String.
+From GA Require Import SigTie.
+From GAGen Require Import GenSigs.
+Local Open Scope string_scope.
+
+Theorem C07_source_thin_bodies :
+  thin_of "FromIterator<T> for GenericArray<T,N>" "from_iter" = Some "match Self :: try_from_iter (iter) { Ok (res) => res , Err (_) => from_iter_length_fail (N :: USIZE) , }" /\
+  thin_of "FromIterator<T> for Box<GenericArray<T,N>>" "from_iter" = Some "match GenericArray :: try_boxed_from_iter (iter) { Ok (res) => res , Err (_) => crate :: from_iter_length_fail (N :: USIZE) , }".
+Proof. repeat split. Qed.
